@@ -5,7 +5,7 @@ use crate::ctx::{Ctx, Elem, Planned};
 use crate::mem::Align;
 use crate::planners::{dir_name, AnyPlanner, ALL_KINDS, DIRS};
 use crate::real::{err_q, gen_input, to_cdd, Real};
-use crate::util::{big_lengths, structured_lengths};
+use crate::util::{big_lengths, rader_primes, structured_lengths};
 use rustfft::num_complex::Complex;
 use rustfft::num_traits::Zero;
 use serde_json::json;
@@ -229,7 +229,15 @@ fn guarded_block<T: Real + Elem>(ctx: &mut Ctx, lens: &[usize]) {
 pub fn run_c03(ctx: &mut Ctx) {
     let (n_max, s_max) = if ctx.quick() { (256, 1 << 14) } else { (2048, 1 << 17) };
     let mut item = 0;
-    for b in shape_lens(n_max, s_max) {
+    let mut all = shape_lens(n_max, s_max);
+    // Rader-friendly primes above 2^16 (index arithmetic of the SIMD gather kernels changes regime there), a sample in quick
+    let (plo, phi, step) = if ctx.quick() { (1u64 << 16, 1u64 << 17, 4) } else { (1u64 << 16, 1u64 << 19, 1) };
+    for (i, p) in rader_primes(plo, phi).into_iter().enumerate() {
+        if i % step == 0 {
+            all.push(vec![p as usize]);
+        }
+    }
+    for b in all {
         for elem in ["f32", "f64"] {
             let idx = item;
             item += 1;
